@@ -405,3 +405,10 @@ S(id="T.copy.term", props=["C13", "C12"], spec="symtab.spec.c", harness="h_add_t
 S(id="D.unwind", props=["C17", "C11"], spec="gram.spec.c", harness="h_free_sgrammar", mode="L", canaries=3, enforce=["free_sgrammar/free_sgrammar_enf_c"],
   replace=["_OS_delete_function/os_delete_sg_c", "yaep_free/vlo_free_sg_c"], functions=["free_sgrammar", "set_sgrammar (error branch)"],
   what="whatever the number (0..5) of containers of the intermediate form created when a memory request failed, exactly those are released, once each")
+S(id="RG.tail", props=["C10", "C14"], spec="rgtail.spec.c", harness="h_rg_tail", mode="B", dfcc=True, canaries=2, enforce=["verif_rg_tail/rg_tail_c"],
+  replace=["verif_error_exit/err_tail_c", "rule_new_start/rule_new_start_c", "rule_new_symb_add/rule_new_symb_add_c", "rule_new_stop/rule_new_stop_c", "check_grammar/check_grammar_c",
+           "symb_finish_adding_terms/finish_terms_c", "rule_print/rule_print_c", "term_set_print/term_set_print_c", "nonterm_get/nonterm_get_c"],
+  unwind_all=4, bound="the start symbol has <= 2 rules (list walk unwound)", functions=["yaep_read_grammar (last region, rule R6)"],
+  what="NO_RULES only when no rule was read; `$S : error $eof' is added iff no rule of the start symbol begins with `error'; the grammar is checked while still marked undefined, "
+       "the code vector is built after the check, and undefined_p is cleared as the last action",
+  assumes=["R6: the region is cut from yaep_read_grammar on every run", "debug output of the region is not modelled (printers replaced by empty contracts)"])
